@@ -243,6 +243,10 @@ func main() {
 		replay(a.Replay, grid)
 		return
 	}
+	if d, ok := a.Extra["emit-testdata"]; ok {
+		emitTestdata(d)
+		return
+	}
 	cs := cases(a.Tier, grid)
 	if f, ok := a.Extra["only"]; ok {
 		var keep []caseSpec
